@@ -388,6 +388,8 @@ func TestC19(t *testing.T) {
 			check(fmt.Sprintf("replacement %d, modification time %s than before", i+1, how))
 		}
 	}
+	// --- long-lived endpoints: time passes, key pairs are renewed on disk (c19_longlived_test.go)
+	c19LongLived(t, e)
 	// --- real listeners: TCP (ClusterConnection inbound server) and mux receiver, verification on
 	on := tlsCase{true, true, "good", false}
 	pp, err := startProxyPair(t, config.ClusterConnConfig{Remote: config.ClusterDefinition{TcpServer: config.TCPTLSInfo{TLSConfig: k.config(on)}}})
